@@ -188,9 +188,13 @@ impl SecondaryTransaction {
                 _ => {
                     #[cfg(feature = "verif")]
                     let verif_path = path.clone();
+                    // A crash between writing a DV file and logging it in the manifest leaves an orphan
+                    // file whose id is handed out again after recovery: overwrite it (ids of committed
+                    // DVs are never re-issued, so an existing file can only be such an orphan).
                     let mut file = tokio::fs::OpenOptions::default()
                         .write(true)
-                        .create_new(true)
+                        .create(true)
+                        .truncate(true)
                         .open(path)
                         .await?;
                     #[cfg(feature = "verif")]
